@@ -114,6 +114,94 @@ def _c14(tier):
 CHECKS["C14"] = _c14
 
 
+def build_erase(cfg):
+    li = build.build_lib(cfg)
+    cc, d, h = li["cc"], li["dir"], os.path.join(VERIF, "harness", "erase")
+    import hashlib
+    hh = hashlib.sha256(b"".join(open(os.path.join(h, f), "rb").read() for f in sorted(os.listdir(h)))).hexdigest()[:10]
+    exe = os.path.join(d, "erase-" + hh)
+    if os.path.exists(exe):
+        return exe
+    copt = [f for f in li["cflags"] if f.startswith("-O") or f.startswith("-f")]
+    objs = []
+    for src, flags in [("probe.c", ["-O0", "-fno-lto"]), ("main.c", ["-O0", "-fno-lto"]), ("victim.c", copt)]:
+        o = os.path.join(d, "erase_%s_%d.o" % (src[:-2], os.getpid())); objs.append(o)
+        r = subprocess.run([cc, "-c", "-w", "-g", "-D_GNU_SOURCE", "-I" + li["inc"], "-I" + build.REPO] + flags + ["-o", o, os.path.join(h, src)],
+                           stdout=subprocess.PIPE, stderr=subprocess.STDOUT)
+        if r.returncode:
+            raise RuntimeError("erase client build failed: " + r.stdout.decode()[:3000])
+    link = [cc] + [f for f in copt if f.startswith("-O") or f == "-flto"] + ["-o", exe + ".tmp"] + objs + [li["lib"]]
+    if cc.startswith("clang") and "-flto" in copt:
+        link.insert(1, "-fuse-ld=lld")
+    r = subprocess.run(link, stdout=subprocess.PIPE, stderr=subprocess.STDOUT)
+    if r.returncode:
+        raise RuntimeError("erase client link failed: %s\n%s" % (" ".join(link), r.stdout.decode()[:3000]))
+    os.rename(exe + ".tmp", exe)
+    for o in objs:
+        os.unlink(o)
+    return exe
+
+
+def _c18(tier):
+    t0 = time.time()
+    res = Results("C18")
+    cfgs = ["repo", "O2", "O3", "O2lto", "O3lto"] if tier == "quick" else ["repo", "O0", "O1", "O2", "O3", "Os", "O0lto", "O2lto", "O3lto", "clangO2", "clangO3", "clangO2lto"]
+    from concurrent.futures import ThreadPoolExecutor
+    def one(cfg):
+        try:
+            exe = build_erase(cfg)
+            p = subprocess.run([exe, tier], stdout=subprocess.PIPE, stderr=subprocess.PIPE, timeout=900)
+            return cfg, p.returncode, p.stdout.decode(errors="replace"), p.stderr.decode(errors="replace")[-500:]
+        except Exception as e:   # a configuration that cannot be built is inconclusive, not a verdict
+            return cfg, -1, "", repr(e)[:600]
+    with ThreadPoolExecutor(max_workers=8) as ex:
+        outs = list(ex.map(one, cfgs))
+    matrix, floor_ok, floor_msg = {}, True, []
+    for cfg, rc, out, err in outs:
+        ended = False
+        for line in out.splitlines():
+            if not line.startswith("{"):
+                continue
+            r = json.loads(line)
+            if r.get("t") == "end":
+                ended = True
+            if r.get("t") != "erase":
+                continue
+            res.count("cases", r["cases"]); res.count("bytes_inspected", r["bytes"])
+            ctrl = r["fn"].startswith("CONTROL")
+            matrix.setdefault(cfg, {})[r["fn"] + "/" + r["storage"]] = dict(cases=r["cases"], surviving=r["surviving"], outside=r["outside_changed"])
+            res.distinct.add("%s|%s|%s" % (cfg, r["fn"], r["storage"]))
+            if ctrl:
+                if r["storage"] == "stack" and cfg not in ("repo", "O0", "O0lto") and r["surviving"] == 0:
+                    floor_ok = False; floor_msg.append("positive control (plain memset, stack) left no surviving byte in %s: probe not sensitive there" % cfg)
+                continue
+            w = dict(harness="erase", cfg=cfg, fn=r["fn"], storage=r["storage"], first_n=r["first_n"], first_off=r["first_off"], first_val=r["first_val"],
+                     first_surviving=r["first_surviving"], replay="erase %s %s" % (cfg, tier))
+            if r["surviving"]:
+                res.add_violation("C18", "C18|%s|secret-bytes-survive|%s|%s" % (r["fn"], r["storage"], cfg),
+                                  "%s (%s buffer, build %s): %d of %d addressed bytes do not hold the fill value after the call returned (first: n=%d off=%d val=%#x, %d bytes)" %
+                                  (r["fn"], r["storage"], cfg, r["surviving"], r["bytes"], r["first_n"], r["first_off"], r["first_val"], r["first_surviving"]), w)
+            if r["outside_changed"]:
+                res.add_violation("C18", "C18|%s|bytes-outside-range-changed|%s|%s" % (r["fn"], r["storage"], cfg),
+                                  "%s (%s buffer, build %s): %d bytes outside the n addressed bytes changed" % (r["fn"], r["storage"], cfg, r["outside_changed"]), w)
+        if rc != 0 or not ended:
+            res.incomplete.append("erase/" + cfg); res.notes.append("erase %s rc=%s %s" % (cfg, rc, err))
+    res.evaluations = res.counters.get("cases", 0)
+    res.samples = [dict(cfg=c, results={k: v for k, v in list(m.items())[:4]}) for c, m in list(matrix.items())[:3]]
+    return finish(res, tier, "exploration",
+                  "client programs: {memset_s, memzero_s, memset16_s, memset32_s, memzero16_s, memzero32_s, strzero_s} x {stack, heap-then-free, static} buffer that is dead "
+                  "after the call x n in {1..40,63,64,65,255,4096} (quick: 19 sizes) x alignment 0..7 x fill {0,0xFF,0x5A}, client and library both built per configuration; "
+                  "the dead buffer is read out-of-band after the frame is gone; distinct = (configuration, function, storage) cells with all their cases", t0,
+                  extra_cov=dict(configurations=cfgs, matrix=matrix, harnesses=["erase"],
+                                 positive_control="plain memset in the same client must leave secret bytes on the stack at -O1 and above"),
+                  assumptions=["gcc 12 / clang 14 on x86-64 with the flags listed; other compilers or flags are not covered",
+                               "copies of the secret in registers or spill slots are outside the statement"],
+                  min_evals=100, floor_ok=floor_ok, floor_msg="; ".join(floor_msg))
+
+
+CHECKS["C18"] = _c18
+
+
 def _c19(tier):
     t0 = time.time()
     res = Results("C19")
